@@ -251,6 +251,11 @@ func Scenarios(tier string) []run.Scenario {
 				for _, maxInt := range []time.Duration{0, 3 * in} {
 					for _, maxEl := range []time.Duration{0, 5 * in} {
 						for _, mr := range []int{-1, 0, 1, 3} {
+							outcomes := append([]ch.Outcome(nil), outcomes...)
+							if mul != 1 {
+								// with growth, 1e12 ms overflows int64 nanoseconds after a few doublings: use 1e11 ms there
+								outcomes[4] = rv("100000000000")
+							}
 							p := Params{B: sse.Backoff{InitialInterval: init, Multiplier: mul, Jitter: jit, MaxInterval: maxInt, MaxElapsedTime: maxEl, MaxRetries: mr},
 								MaxAttempts: attempts, Outcomes: outcomes}
 							draws := 1
@@ -281,7 +286,7 @@ func Scenarios(tier string) []run.Scenario {
 
 var Check = &run.Check{
 	ID: "C12", Level: "model_checking",
-	Rule: "Scenarios: every combination of InitialInterval {default, 1us, 1s} x Multiplier {default, 1, 2} x Jitter {default, -1, 0.25, 0.999} x MaxInterval {0, 3x initial} x MaxElapsedTime {0, 5x initial} x MaxRetries {-1, 0, 1, 3}; inside each scenario the explorer chooses every history of attempt outcomes up to the attempt bound from {transport failure, connect then drop, connect + retry field 7 / 0 / 1e12 / +7 (thorough also 7x, -1, empty, two fields + read error)} and the random draws: 0.5 by default, with up to 1 (thorough 2) draws per execution replaced by 0 or 1-2^-53 at every position; the real Connect loop runs on the virtual clock (a wait of 1e12 ms costs nothing). Oracle: closed-form schedule (growth, cap, reset on success, server override, limits) compared with the waits reported to OnRetry, the durations the timer was armed with, and the virtual times of the attempts.",
+	Rule: "Scenarios: every combination of InitialInterval {default, 1us, 1s} x Multiplier {default, 1, 2} x Jitter {default, -1, 0.25, 0.999} x MaxInterval {0, 3x initial} x MaxElapsedTime {0, 5x initial} x MaxRetries {-1, 0, 1, 3}; inside each scenario the explorer chooses every history of attempt outcomes up to the attempt bound from {transport failure, connect then drop, connect + retry field 7 / 0 / 1e12 (1e11 where the interval grows, to stay inside int64 nanoseconds) / +7 (thorough also 7x, -1, empty, two fields + read error)} and the random draws: 0.5 by default, with up to 1 (thorough 2) draws per execution replaced by 0 or 1-2^-53 at every position; the real Connect loop runs on the virtual clock (a wait of 1e12 ms costs nothing). Oracle: closed-form schedule (growth, cap, reset on success, server override, limits) compared with the waits reported to OnRetry, the durations the timer was armed with, and the virtual times of the attempts.",
 	Assumptions: []string{
 		"attempts take no virtual time; MaxElapsedTime is measured from the last successful connection (or the start of Connect), as the implementation documents",
 		"a retry value is valid iff it consists of ASCII digits; values up to 1e12 ms are used",
